@@ -76,7 +76,14 @@ class Pending:
         self.answered = False
         self.cancelled = False
 
+    def _usable(self):
+        # a connect that the component cancelled (asyncio: wait_for timeout) or that was answered before cannot
+        # produce a connection any more - a driver doing that would manufacture executions no network can
+        if self.cancelled or self.answered:
+            raise RuntimeError("harness misuse: attempt %d was already %s" % (self.n, "cancelled" if self.cancelled else "answered"))
+
     def refuse(self, exc=None):
+        self._usable()
         self.answered = True
         self.net.log(("refused", self.n, self.tidx))
         self._err(exc or ConnectionRefusedError(111, "Connection refused"))
@@ -85,6 +92,7 @@ class Pending:
     def establish(self):
         """TCP comes up: build the protocol with the component's factory, attach a fake transport, complete
         the connect future with what the real endpoint / create_connection would deliver."""
+        self._usable()
         self.answered = True
         world = self.net.world
         tcfg = self.net.tcfgs[self.tidx]
